@@ -30,6 +30,10 @@ def run(P, R, L):
     K.bundle_readpath(P, R, L)
     K.bundle_retention(P, R, L)
     K.bundle_liveness(P, R, L)
+    R.clause("ITR-1", "backward collapse of the client iterator: records newer than the snapshot change no state; every visible record rewrites the cache")
+    K.itr1_backward_collapse(P, R, L)
+    R.clause("ITR-2", "forward collapse of the client iterator: invisible records change no state; a visible Delete turns skipping on and remembers its key; shadowed Puts are skipped")
+    K.itr2_forward_collapse(P, R, L)
     R.not_decided += ["which element a data-dependent loop stops on (the equivalence with a sorted-map cursor)",
                       "re-positioning of non-current children on direction change", "tombstone / shadowing logic beyond the sequence filter"]
     R.assumptions += ["the helpers named in the direction table do what their names say (their bodies are value-level)"]
